@@ -10,6 +10,9 @@ sid, out = sys.argv[1], sys.argv[2]
 feats = None
 if "--features" in sys.argv:
     feats = sys.argv[sys.argv.index("--features") + 1]
+tc = None
+if "--toolchain" in sys.argv:
+    tc = sys.argv[sys.argv.index("--toolchain") + 1]
 wt = "/tmp/confirm-" + sid
 env = dict(os.environ, CARGO_NET_OFFLINE="true", RUST_BACKTRACE="0", CARGO_TARGET_DIR="/tmp/confirm-target")
 def run(cmd, cwd=wt):
@@ -29,7 +32,7 @@ try:
     res["suite_failed"] = failed
     demo = "demo_" + sid.lower().replace("-", "_")
     shutil.copyfile(os.path.join(out, "demo.rs"), os.path.join(wt, "tests", demo + ".rs"))
-    cmd = ["cargo", "test", "--offline", "--test", demo]
+    cmd = ["cargo"] + (["+" + tc] if tc else []) + ["test", "--offline", "--test", demo]
     if feats:
         cmd += ["--features", feats]
     rc, o = run(cmd)
